@@ -27,6 +27,7 @@ THEOREMS = {
         "Dawgs.C13.Props.c13_seq_current_refuted",
         "Dawgs.C13.Props.c13_full",
         "Dawgs.C13.Props.c13_full_old_refuted",
+        "Dawgs.C13.Props.model_refines_spec",
         "Dawgs.C13.Props.api_complete",
         "Dawgs.C13.Props.snapshot_returns_private_copy",
         "Dawgs.C13.Props.commutative_contains",
@@ -47,6 +48,63 @@ THEOREMS = {
         "Dawgs.C13.RoaringProps.roaring64_xor_shares_containers_refuted",
         "Dawgs.C13.RoaringProps.roaring32_xor_mutates_operand_refuted",
     ],
+}
+
+
+
+# statement (properties.jsonl C13) split into clauses -> what carries each of them. "all" = all sets / histories / schedules.
+CLAUSES = {
+    "add / remove / contains / cardinality / iteration (Slice, Each with early stop) / clear / CheckedAdd on one provider = the set operation "
+    "(bitmap32, bitmap64, either wrapper)":
+        "model_refines_spec (every history of interface calls on one provider of the model returns the spec's answer and leaves the spec's set; "
+        "hypotheses: canonical initial content, the wrapper's mutex free) + native_ops_set (the functions standing for roaring's Add/Remove are "
+        "insert/erase on canonical sets) + wrapper_same_answers (wrapper = wrapped bitmap). On plain bitmaps these calls ARE roaring calls: "
+        "their exactness is the named assumption below, checked by the tie, not proved",
+    "clone is an independent copy":
+        "clone_independent (same content and kind, its own free mutex), clone_fresh_lock (a delegate of Each on the clone may call the original and "
+        "vice versa); providers are values in the model, so that the implementation's clone shares nothing is tie only (clone-then-mutate cases, "
+        "eachcall across clone and original)",
+    "in-place or / and / and-not / xor with ANY other duplex operand (same type, other type, wrapped, the receiver itself for a wrapper) = the set "
+    "operation":
+        "model_refines_spec (binary calls included, all pairings) resting on or_fallback_correct, xor_fallback_correct, and_fallback_correct_fixed, "
+        "andnot_fallback_correct_fixed, c13_seq_fixed (fallback loops = set algebra for all canonical sets), native_ops_set (native path, assumed "
+        "exact) and type_switch_as_modelled (the switch shapes and per-case call lists of roaring32/64.go equal the modelled ones: decide on "
+        "regenerated facts). Refuted for the code before the first repair: and_fallback_correct_refuted, andnot_fallback_correct_refuted, "
+        "c13_seq_current_refuted (with and_/andnot_fallback_correct_partial for what held)",
+    "… including a plain bitmap as its OWN operand and the operand object's purity (refuted instances: the three known roaring Xor findings)":
+        "roaring64_xor_self_panics_refuted (C13:bitmap64.Xor:self-operand-panic), roaring32_xor_mutates_operand_refuted "
+        "(C13:bitmap32.Xor:native-mutates-operand), roaring64_xor_shares_containers_refuted (C13:bitmap64.Xor:native-shares-containers) on the "
+        "container-identity model, which suite heap13 ties to the real library; a wrapper receiver is not affected (it works on a snapshot)",
+    "thread-safe wrappers give the same answers under concurrent use (linearizable)":
+        "wrapper_linearizable_sets (any threads / wrappers / interleavings, operands plain, wrapper or self: each wrapper's history is a run of the "
+        "set spec with the callers' answers), wrapper_linearizable, checkedAdd_atomic (at most one true per value when no call removes; exactly "
+        "one for a new value under CheckedAdd/read-only histories), operand_snapshot_semantics + or_not_jointly_atomic (a.Op(b) = atomic read of "
+        "b at a prefix of b's history, then atomic update of a; not atomic on the pair), wrapper_mutex_reduction / simplex_mutex_reduction "
+        "(generic one-lock reduction, both wrappers). Hypotheses: every method is lock;delegate;unlock and a wrapper operand is snapshotted "
+        "under its own lock before the receiver's is taken — wrapper_same_answers / snapshot_returns_private_copy (decide on the regenerated "
+        "lock skeleton and return paths); plain (unwrapped) operands are not written concurrently",
+    "… with no deadlock (needed for 'gives answers')":
+        "wrapper_deadlock_free, wrapper_deadlock_free_any, wrapper_deadlock_free_live (all reachable states, arbitrary operands incl. x.Op(x) and "
+        "a.Op(b)||b.Op(a)); each_delegate_other_wrapper (delegates of Each calling another wrapper: one thread, or one lock order) with "
+        "each_self_deadlocks as the stated guard; refuted for the code before the second repair: wrapper_deadlock_free_old_refuted_self / _abba",
+    "… with no data race":
+        "theorem level: in every reachable state of the lock LTS a wrapper's data is used by at most one thread (bodies and snapshot reads exclude "
+        "each other: wrapper_linearizable, 4th and 5th conjunct), given the extracted skeleton. Go-memory-model races on anything outside that "
+        "skeleton: searched only (-race run of suite conc13 in the thorough tier; paired-Add, fillrace and toidsrace probes in both tiers)",
+    "every method of the interfaces x every implementation is covered":
+        "api_complete (decide on regenerated interface / method tables: a new method or type breaks it); commutative_contains for the combinators "
+        "of commutative.go",
+    "searched only (tie)":
+        "that the Lean transcription is what the Go code does: line diff model = implementation on all 8 ordered pairings, exhaustively on a small "
+        "boundary universe and on random histories with the boundary alphabet (0, 2^16±1, 2^32±1, 2^63, max-1, max) in every suite; the set "
+        "monitor on every implementation answer; run containers (a completely full 2^16 chunk) are monitor only (suite x13); consumers in "
+        "graph/types.go (DuplexToGraphIDs also under a concurrent writer, KindBitmaps/ThreadSafeKindBitmap.Or) are tie + oracle only; "
+        "the operand object a wrapper hands to its inner provider (opprivate, fillrace) and clone independence of the implementation are tie only",
+    "named assumptions":
+        "RoaringBitmap v2.19.0 native operations other than the in-place Xor are exact sets and do not retain their operand (trusted base); "
+        "canonical container layout (array container iff <= 4096 values per chunk) for the pre-repair cursor model only; sync.Mutex is a "
+        "non-reentrant lock with the usual semantics; a delegate is one read and one write of the wrapped data under the lock; plain operands "
+        "are not written concurrently; ids are uint64/uint32 in the tie and Nat in Lean; the go/ast extractor reports the source faithfully",
 }
 
 
@@ -92,13 +150,13 @@ def finding_key(suite, ops, line, msg):
 def race_stress(ctx, stats):
     """thorough tier: the concurrent suite once more with a -race build of the harness."""
     if ctx.tier != "thorough":
-        return {"race_run": "not in quick tier"}
+        return {"race_run": "not in quick tier", "clause_map": CLAUSES}
     ok, out = verif.build_harness(ctx, race=True)
     if not ok:
-        return {"race_run": "go build -race not available here: " + out[-300:].replace("\n", " ")}
+        return {"race_run": "go build -race not available here: " + out[-300:].replace("\n", " "), "clause_map": CLAUSES}
     ops = ctx.path("conc13.ops")
     if not os.path.exists(ops):
-        return {"race_run": "no conc13 ops"}
+        return {"race_run": "no conc13 ops", "clause_map": CLAUSES}
     rc, out = verif.harness(ctx, "conc13", "run", ["-ops", ops, "-out", ctx.path("conc13.race.impl")], race=True, timeout=1500)
     races = out.count("WARNING: DATA RACE")
     same = os.path.exists(ctx.path("conc13.impl")) and verif.read_lines(ctx.path("conc13.impl")) == verif.read_lines(ctx.path("conc13.race.impl"))
@@ -106,7 +164,7 @@ def race_stress(ctx, stats):
         verif.report_finding(ctx, "C13:threadSafeDuplex:data-race",
                              "race detector run of the concurrent suite: rc=%d races=%d same-answers=%s" % (rc, races, same),
                              {"kind": "input", "suite": "conc13", "ops": verif.read_lines(ops)[:200], "log": out[-3000:]})
-    return {"race_run": {"rc": rc, "data_races": races, "same_answers_as_plain_build": same}}
+    return {"race_run": {"rc": rc, "data_races": races, "same_answers_as_plain_build": same}, "clause_map": CLAUSES}
 
 
 SPEC = {
@@ -165,20 +223,23 @@ MANIFEST = {
                  "iterator under removal; lock-level LTS with snapshot-then-lock; the generic one-lock reduction shared with C16; a "
                  "container-identity model of roaring's in-place Xor) + differential correspondence with the Go code + go/ast fact extraction "
                  "(lock skeleton, type-switch shapes, API surface) closed by decide",
-    "text": "Lean theorems for all receiver and operand sets: the Or and Xor fallbacks equal union / symmetric difference; the And and AndNot "
-            "fallbacks as first written are refuted and proved exact for the collect-then-remove repair now in /repo; clones are independent; a "
-            "wrapper gives the same answers as the wrapped bitmap. Concurrency as theorems: every method of threadSafeDuplex/threadSafeSimplex is "
-            "one critical section (a wrapper operand is first snapshotted under ITS lock), so for any number of threads, wrappers and any "
-            "interleaving every wrapper's history is linearizable to the set spec with the answers the callers got (also via the generic "
-            "mutex reduction shared with C16), CheckedAdd answers true at most once per value (exactly once for a new value), no reachable "
-            "state is deadlocked for any receiver/operand pairing including x.Or(x) and a.Or(b) || b.Or(a), and a.Or(b) has snapshot semantics: "
-            "the operand value is b's content after a prefix of b's own linearized history, the update of a is atomic on a, and the pair is "
-            "provably not jointly atomic. The lock skeleton and the type-switch shapes are re-extracted from the source and must equal the "
-            "modelled shape; an API table (every method of Duplex/Simplex x every implementation, commutative.go's combinators) must be covered "
-            "by model operations or listed exemptions. The three defects of RoaringBitmap's in-place Xor are refuted in Lean on a "
-            "container-identity model that is itself compared with the real library on every run. Model and real code are compared on every "
-            "ordered pairing of {bitmap32, bitmap64, threadSafe(bitmap32), threadSafe(bitmap64)}, exhaustively on a small boundary universe and "
-            "on random histories every run.",
+    "text": "Clause by clause (coverage.clause_map in the evidence). One provider, any history, any operand pairing: every call of the Duplex "
+            "interface on the model of a bitmap or wrapper returns the set spec's answer and leaves the spec's set (model_refines_spec; hypotheses: "
+            "canonical content, the wrapper's mutex free, operands are values) — built on: the Or and Xor fallbacks equal union / symmetric "
+            "difference and the And / AndNot fallbacks, refuted as first written, are exact for the collect-then-remove repair in /repo, for all "
+            "sets; the native path is roaring's and is assumed exact except for the in-place Xor; clones are independent; a wrapper answers as "
+            "the wrapped bitmap. Concurrency as theorems on a lock-level LTS whose skeleton (lock; delegate; unlock, a wrapper operand "
+            "snapshotted under ITS lock first, every return path of the snapshot a clone) is re-extracted from lock.go every run: for any threads, "
+            "wrappers and interleavings each wrapper's history is a run of the set spec with the callers' answers (also via the generic mutex "
+            "reduction shared with C16), CheckedAdd is atomic, no reachable state is deadlocked for any receiver/operand pairing including "
+            "x.Op(x) and a.Op(b) || b.Op(a), a.Op(b) has snapshot semantics (b read atomically at a prefix of its history, a updated atomically, "
+            "the pair provably not jointly atomic), and a delegate of Each may call another wrapper when one thread does so or one lock order is "
+            "followed (a delegate calling the wrapper it iterates is the stated self-deadlock). A wrapper's data is used by at most one thread at "
+            "a time; races outside the extracted skeleton are searched only. Type-switch shapes and the API surface (every interface method x "
+            "every implementation, commutative.go) are regenerated and closed by decide. The three defects of RoaringBitmap's in-place Xor are "
+            "the refuted instances, on a container-identity model compared with the real library every run. Model and real code are compared on "
+            "every ordered pairing of {bitmap32, bitmap64, threadSafe(bitmap32), threadSafe(bitmap64)}, exhaustively on a small boundary "
+            "universe and on random histories with the boundary alphabet, every run.",
     "note": "Trusted: Lean kernel; RoaringBitmap's native operations as exact sets EXCEPT the in-place Xor, whose three defects (known findings) are "
             "modelled with container identity and tied by suite heap13; canonical container layout (array iff <= 4096 per chunk); run containers "
             "(a completely full chunk) are judged by the monitor only (suite x13); sync.Mutex semantics; the go/ast extractor. The LTS treats a "
